@@ -51,4 +51,28 @@ def generate():
     if not m:
         raise ExtractError("total_size: cannot find the initial value of sum")
     items.append('def totalSizeSeed : String := "%s"' % m.group(1))
+    # whitespace-free, comment-free text of every function the sequential model (Swiss/Seq.lean) follows
+    # statement by statement: any edit (a capped probe loop, a changed guard or constant) breaks a
+    # gen_src_* obligation of Properties/C18.lean and the model has to be re-read against the new text
+    def norm(b):
+        return re.sub(r"\s+", "", strip_comments(b))
+
+    def sdef(name, text):
+        return 'def src_%s : String := "%s"' % (name, text.replace("\\", "\\\\").replace('"', '\\"'))
+    T = r"ConcurrentFixedSwissTable<T, H, E>::"
+    S = r"ConcurrentTransientHashSet<T, H, E>::"
+    for nm, rx, nth in [
+        ("find", T + r"find\s*\(", 0), ("do_emplace", T + r"do_emplace\s*\(", 0), ("table_clear", T + r"clear\s*\(", 0),
+        ("table_rehash", T + r"rehash\s*\(", 0), ("table_reserve", T + r"reserve\s*\(", 0),
+        ("construct_with_bucket", T + r"construct_with_bucket\s*\(", 0), ("table_begin", T + r"begin\s*\(", 0),
+        ("find_first_non_empty", T + r"find_first_non_empty\s*\(", 0), ("table_swap", T + r"swap\s*\(", 0),
+        ("table_copy_ctor", r"ConcurrentFixedSwissTable<T, H, E>::ConcurrentFixedSwissTable\s*\(\s*const ConcurrentFixedSwissTable& other", 0),
+        ("table_iter_incr", r"ConcurrentFixedSwissTable<T, H, E>::Iterator<CONST>::operator\+\+\s*\(", 0),
+        ("set_emplace", S + r"emplace\s*\(", 0), ("set_find", S + r"find\s*\(", 0), ("set_begin", S + r"begin\s*\(", 0),
+        ("set_size", S + r"size\s*\(", 0), ("set_total_size", S + r"total_size\s*\(", 0), ("set_clear", S + r"clear\s*\(", 0),
+        ("set_rehash", S + r"rehash\s*\(", 0), ("set_reserve", S + r"reserve\s*\(", 0), ("set_swap", S + r"swap\s*\(", 0),
+        ("set_copy_ctor", r"ConcurrentTransientHashSet<T, H, E>::ConcurrentTransientHashSet\s*\(\s*const ConcurrentTransientHashSet& other", 0),
+        ("set_iter_incr", r"ConcurrentTransientHashSet<T, H,\s*E>::Iterator<CONST>::operator\+\+\s*\(", 0),
+    ]:
+        items.append(sdef(nm, norm(function_body(txt, rx, nth))))
     emit("Swiss", items)
